@@ -1,6 +1,6 @@
 (* Non-vacuity of the hypotheses of the C16 theorems. *)
 From Coq Require Import List NArith Bool.
-From LV Require Import Payments.Model Payments.Proofs Payments.Props Payments.Lin Payments.LinProofs.
+From LV Require Import Payments.Model Payments.Proofs Payments.ShardProofs Payments.Props Payments.Lin Payments.LinProofs.
 Import ListNotations.
 Local Open Scope N_scope.
 
@@ -93,3 +93,31 @@ Example conc_bad_not_linearisable :
   forallb (fun w => negb (lin_witness_ok KV conc_bad w))
     [[0;1;2]; [0;2;1]; [1;0;2]; [1;2;0]; [2;0;1]; [2;1;0]]%nat = true.
 Proof. vm_compute; reflexivity. Qed.
+
+(* C16_shard_admission: its hypotheses are met by a reachable store — a blinded
+   1000 msat payment with one 400 msat shard in flight (total_amt_msat 1000).
+   A second blinded shard with the same total is compatible and is admitted by
+   both backends; one announcing another total, an MPP shard and a non-blinded
+   shard are incompatible and refused with the documented errors. *)
+Definition bl (id a t : N) : attempt := mkAtt id a None true t Inflight.
+Definition blinded_store : store := run KV [] [OInit 0 1000; ORegister 0 (bl 1 400 1000)].
+
+Example shard_hyps_met :
+  exists p, lookup blinded_store 0 = Some p /\ pay_inv p /\ registrable p = EOk /\
+    shard_wf (value p) (bl 2 600 1000) = true /\
+    forallb (shard_compat (bl 2 600 1000)) (filter is_inflight (atts p)) = true /\
+    sent (atts p) + 600 <= value p /\ find_global blinded_store 2 = None.
+Proof.
+  eexists. split; [vm_compute; reflexivity|].
+  repeat split; vm_compute; try reflexivity; intro X; discriminate X.
+Qed.
+
+Example shard_second_admitted :
+  map (fun b => rerr (snd (step b blinded_store (ORegister 0 (bl 2 600 1000))))) [KV; SQL]
+    = [EOk; EOk] /\
+  map (fun a => rerr (snd (step SQL blinded_store (ORegister 0 a))))
+    [bl 2 600 1001; bl 2 600 0; mkAtt 2 600 (Some (1, 1000)) false 0 Inflight;
+     mkAtt 2 600 (Some (1, 1000)) true 1000 Inflight; bl 2 601 1000]
+    = [EBlindedTotalMismatch; EBlindedMissingTotal; EMixedBlinded; EMPPInBlinded;
+       EValueExceeds].
+Proof. split; vm_compute; reflexivity. Qed.
